@@ -1502,6 +1502,73 @@ def translate_scatter_single(src_root):
     return "\n".join(L) + "\n"
 
 
+def translate_posol(src_root):
+    """the assembly of `po_sol` / `po_var` in `calibrate_double_ended_solver` (concatenation of slices, indexed assignment of the
+    attenuation unknowns, zero at the first reference location), both branches, proved to be `Scatter.poSol` / `Scatter.poSolMatch`"""
+    tree = ast.parse((Path(src_root) / "dtscalibration" / "calibrate_utils.py").read_text())
+    fns = {n.name: n for n in ast.walk(tree) if isinstance(n, ast.FunctionDef)}
+    w = "calibrate_double_ended_solver"
+    if w not in fns:
+        raise Untranslatable(f"{w} not found")
+    sizes = {"nt": "nt", "nx_sec": "nxs", "ix_from_cal_match_to_glob.size": "m"}
+
+    def bound(n):
+        return "none" if n is None else f"(some (({_sc_scalar(n, w, sizes)} : Nat) : Int))"
+
+    def sl(n, src):
+        if not (isinstance(n, ast.Subscript) and ast.unparse(n.value) == src and isinstance(n.slice, ast.Slice) and n.slice.step is None):
+            raise Untranslatable(f"{w}: `{ast.unparse(n)[:60]}` is not a slice of {src}")
+        return f"pySlice p {bound(n.slice.lower)} {bound(n.slice.upper)}"
+
+    def index(n):
+        if not (isinstance(n, ast.BinOp) and isinstance(n.op, ast.Add)):
+            raise Untranslatable(f"{w}: index `{ast.unparse(n)[:60]}`")
+        off, arr = _sc_scalar(n.left, w, sizes), ast.unparse(n.right)
+        if arr == "ix_sec[1:]":
+            return f"ixSec.tail.map (fun i => {off} + i)"
+        if arr == "ix_from_cal_match_to_glob":
+            return f"ixE.map (fun i => {off} + i)"
+        if arr == "ix_sec[0]":
+            return f"{off} + FIRST"
+        raise Untranslatable(f"{w}: index array `{arr}`")
+
+    L = ["\nnamespace DtsVerif.GenScatter\nopen DtsVerif.Py DtsVerif.Scatter\n"]
+    for target, psrc, esrc, tag in (("po_sol", "p_sol", "E_all_exact", "Sol"), ("po_var", "p_var", "E_all_var_exact", "Var")):
+        branches = [n for n in fns[w].body if isinstance(n, ast.If) and ast.unparse(n.test) == "np.any(matching_indices)"
+                    and any(isinstance(x, ast.Assign) and ast.unparse(x.targets[0]) == target for x in n.body)]
+        if len(branches) != 1:
+            raise Untranslatable(f"{w}: {len(branches)} `if np.any(matching_indices)` blocks assemble {target}")
+        zero = [st for st in fns[w].body if isinstance(st, ast.Assign) and ast.unparse(st.targets[0]).startswith(target + "[")]
+        if len(zero) != 1 or ast.unparse(zero[0].value) != "0.0":
+            raise Untranslatable(f"{w}: `{target}[first reference location] = 0.0` not found")
+        zidx = index(zero[0].targets[0].slice)
+        for body, match in ((branches[0].body, True), (branches[0].orelse, False)):
+            if len(body) != 2:
+                raise Untranslatable(f"{w}: {target} is assembled by {len(body)} statements")
+            cat, asg = body
+            if not (isinstance(cat, ast.Assign) and ast.unparse(cat.targets[0]) == target and isinstance(cat.value, ast.Call)
+                    and ast.unparse(cat.value.func) == "np.concatenate" and len(cat.value.args[0].elts) == 3
+                    and ast.unparse(cat.value.args[0].elts[1]) == esrc):
+                raise Untranslatable(f"{w}: `{ast.unparse(cat)[:80]}`")
+            a, _, c = cat.value.args[0].elts
+            if not (isinstance(asg, ast.Assign) and isinstance(asg.targets[0], ast.Subscript) and ast.unparse(asg.targets[0].value) == target):
+                raise Untranslatable(f"{w}: `{ast.unparse(asg)[:80]}`")
+            base = f"{sl(a, psrc)} ++ E ++ {sl(c, psrc)}"
+            idx = index(asg.targets[0].slice)
+            vals = sl(asg.value, psrc)
+            if match:
+                name, args, call, model = f"po{tag}MatchG", "(nt m : Nat) (ixE : List Nat) (first : Nat)", "nt m ixE first", "poSolMatch"
+                z = zidx.replace("FIRST", "first")
+            else:
+                name, args, call, model = f"po{tag}G", "(nt nxs : Nat) (ixSec : List Nat)", "nt nxs ixSec", "poSol"
+                z = zidx.replace("FIRST", "ixSec.headD 0")
+            L.append(f"def {name} {{α}} (p E : List α) (zero : α) {args} : List α :=\n  let base := {base}\n"
+                     f"  let a := assignAt base ({idx})\n    ({vals})\n  a.set ({z}) zero")
+            L.append(f"theorem {name}_eq {{α}} (p E : List α) (zero : α) {args} : {name} p E zero {call} = {model} p E zero {call} := rfl")
+    L.append("\nend DtsVerif.GenScatter")
+    return "\n".join(L) + "\n"
+
+
 # ================================================================================================ observations and weights
 def _strip(n):
     """drop `.values`, `.ravel()`, `.T` wrappers; returns (inner node, list of wrappers outermost first)"""
@@ -1812,7 +1879,7 @@ def translate_for(prop, src_root):
             text += translate_scatter_single(src_root)
         elif e == "scatter":
             t_, n_ = translate_scatter(src_root)
-            text += t_
+            text += t_ + translate_posol(src_root)
             names = dict(names, scatter_vectors=n_)
         elif e in ("design-single", "design-double"):
             t_, info = translate_design(src_root, which=(e.split("-")[1],))
